@@ -2455,8 +2455,10 @@ example :
     rcases hp with rfl | rfl
     · simp
     · simp at hpa
-  · simp [dvTcOrd, Field.col]
-  · simp [svOrdered, serVal, Field.col]
+  · simp [dvTcOrd, Field.col, show unrawName "a" = "a" from by decide +kernel,
+      show unrawName "b" = "b" from by decide +kernel]
+  · simp [svOrdered, serVal, Field.col, show unrawName "a" = "a" from by decide +kernel,
+      show unrawName "b" = "b" from by decide +kernel]
 
 /-! ### `skip_name_checks`: the ordered flavor binds purely by position -/
 
@@ -3484,10 +3486,11 @@ theorem source_emissions_modelled :
 
 /-- PIN of the source shape the interpreter was transcribed from: per generator, the error emissions with the
 attribute-flag conditions enclosing them, and all attribute-flag conditions, literally — ORDER and MULTIPLICITY
-included.  A macro edit that adds, drops, renames or reorders an emission, or changes / inverts / removes a flag
-condition (`if forbid_excess_udt_fields`, `if field.default_when_null`, `(!skip_name_checks).then`, …) changes
-`Generated/DeriveC16.lean` and breaks this obligation: the interpreter then has to be re-read against the source.
-(It says nothing about flag-free conditions or data flow.) -/
+included.  A macro edit that adds, drops, renames or reorders an emission, or changes a flag condition WRITTEN AS
+`if` / `.then(` FOLLOWED BY `{` (`if forbid_excess_udt_fields {`, `if field.default_when_null {`,
+`(!skip_name_checks).then(|| {`, …) changes `Generated/DeriveC16.lean` and breaks this obligation.  Flags flowing
+through `let`-bound locals, match-arm guards and closure filters are NOT seen here — they are covered by the
+line pin `source_lines_pinned` (Props/C16Pin.lean).  Neither pin says anything about data flow or behaviour. -/
 theorem source_shape_pinned :
     DeriveC16.svByNameGuarded = ["NoSuchFieldInUdt|if:self.ctx.attributes.forbid_excess_udt_fields", "NotUdt", "FieldSerializationFailed", "ValueMissingForUdtField|if:!#visited_flag_names && !#rust_field_ignore_missing_flags"] ∧
     DeriveC16.svByNameGuards = ["if:self.ctx.attributes.forbid_excess_udt_fields", "else-of:self.ctx.attributes.forbid_excess_udt_fields", "if:self .ctx .attributes .forbid_excess_udt_fields", "else-of:self .ctx .attributes .forbid_excess_udt_fields", "if:!self.ctx.attributes.forbid_excess_udt_fields", "if:!#visited_flag_names && !#rust_field_ignore_missing_flags"] ∧
@@ -3523,8 +3526,10 @@ theorem source_shape_pinned :
     DeriveC16.drDeByNameGuards = ["if:field.skip", "if:field.default_when_null", "else-of:field.default_when_null", "then:(!field.skip)"] :=
   ⟨rfl, rfl, rfl, rfl, rfl, rfl, rfl, rfl, rfl, rfl, rfl, rfl, rfl, rfl, rfl, rfl, rfl, rfl, rfl, rfl, rfl, rfl, rfl, rfl, rfl, rfl, rfl, rfl, rfl, rfl, rfl, rfl⟩
 
-/-- the model-side counterpart of the flag-guarded emissions pinned above — for ALL descriptors and inputs the
-interpreter returns the error only under the flag that guards its emission in the source:
+/-- the model-side counterpart of 6 of the flag-guarded emissions pinned above (and of the four
+`default_when_null` conditions) — the link to the source is string membership in the pinned lists, the content is a
+theorem for ALL descriptors and inputs: the interpreter returns the error only under the flag that guards its
+emission in the source:
 `NoSuchFieldInUdt` / `ExcessFieldInUdt` only with `forbid_excess_udt_fields`; `FieldNameMismatch` /
 `ColumnNameMismatch` only without `skip_name_checks`; and `default_when_null` is what turns a null into the
 default (otherwise the field type's own `deserialize` decides) -/
@@ -3589,7 +3594,99 @@ theorem not_udt_and_null (d : Desc) (db : List Col) :
   · intro h hf; unfold deserValueAt deserValueOpt; simp only [hf, h]
   · intro h hf; unfold deserValueAt deserValueOpt; simp only [hf, h]
 
+/-- how a field is NAMED, on all four sides: each derive's name function `unraw()`s the Rust identifier (pinned:
+if one side loses it — the C16 raw-identifier defect fixed by /repo b86b9e6 — the extracted flag flips and this
+obligation breaks), and that is what the interpreter's single `Field.col` does: the `rename` if present, else the
+identifier without its `r#` prefix — so a struct deriving both directions writes to the column it reads from -/
+theorem source_names_unraw :
+    DeriveC16.svNameUnraw = true ∧ DeriveC16.srNameUnraw = true ∧
+    DeriveC16.dvNameUnraw = true ∧ DeriveC16.drNameUnraw = true ∧
+    (∀ f : Field, f.rename = none → f.col = unrawName f.rustName) ∧
+    (∀ (f : Field) (n : String), f.rename = some n → f.col = n) ∧
+    unrawName "r#type" = "type" ∧ unrawName "type" = "type" ∧ unrawName "r#" = "" := by
+  refine ⟨rfl, rfl, rfl, rfl, ?_, ?_, by decide +kernel, by decide +kernel, by decide +kernel⟩
+  · intro f h; simp [Field.col, h]
+  · intro f n h; simp [Field.col, h]
+
+/-- the DEFAULT flavor is by name: `#[default]` sits on `MatchByName`, every derive's `flavor` attribute is
+`#[darling(default)]`, and the two spellings select the two variants (the family's structs without a `flavor`
+attribute are driven through the by-name interpreter) -/
+theorem source_default_flavor :
+    DeriveC16.defaultFlavor = "MatchByName" ∧ DeriveC16.flavorAttrDefaulted = [true, true, true, true] ∧
+    DeriveC16.flavorNames = [("match_by_name", "MatchByName"), ("enforce_order", "EnforceOrder")] :=
+  ⟨rfl, rfl, rfl⟩
+
 end SourceTie
+
+/-! ### the generated `SerializeRow::is_empty` -/
+
+/-- a field of a struct deriving `SerializeRow` is skipped -/
+def rfieldSkipped : RField → Bool
+  | .leaf f _ => f.skip
+  | .flat skip _ _ => skip
+
+private theorem countActive_zero_iff : ∀ (rs : List RField), countActive rs = 0 ↔ ∀ r ∈ rs, rfieldSkipped r = true
+  | [] => by simp [countActive]
+  | .leaf f v :: rest => by
+    rw [countActive_cons_leaf, List.forall_mem_cons, ← countActive_zero_iff rest]
+    cases hs : f.skip <;> simp [rfieldSkipped, hs]
+  | .flat skip snc inner :: rest => by
+    rw [countActive_cons_flat, List.forall_mem_cons, ← countActive_zero_iff rest]
+    cases hs : skip <;> simp [rfieldSkipped, hs]
+
+private theorem mkPFields_all_skipped : ∀ (rs : List RField), (∀ r ∈ rs, rfieldSkipped r = true) → mkPFields rs = []
+  | [], _ => by simp [mkPFields]
+  | .leaf f v :: rest, h => by
+    have h1 := h _ (List.mem_cons_self ..)
+    simp only [rfieldSkipped] at h1
+    unfold mkPFields mkPField
+    simp only [h1, if_true]
+    exact mkPFields_all_skipped rest (fun r hr => h r (List.mem_cons_of_mem _ hr))
+  | .flat skip snc inner :: rest, h => by
+    have h1 := h _ (List.mem_cons_self ..)
+    simp only [rfieldSkipped] at h1
+    unfold mkPFields mkPField
+    simp only [h1, if_true]
+    exact mkPFields_all_skipped rest (fun r hr => h r (List.mem_cons_of_mem _ hr))
+
+private theorem srOrderedN_all_skipped (sn : Bool) : ∀ (rs : List RField) (db : List Col),
+    (∀ r ∈ rs, rfieldSkipped r = true) → srOrderedN sn rs db = .ok ([], db)
+  | [], db, _ => by simp [srOrderedN]
+  | .leaf f v :: rest, db, h => by
+    have h1 := h _ (List.mem_cons_self ..)
+    simp only [rfieldSkipped] at h1
+    unfold srOrderedN
+    simp only [h1, if_true]
+    exact srOrderedN_all_skipped sn rest db (fun r hr => h r (List.mem_cons_of_mem _ hr))
+  | .flat skip snc inner :: rest, db, h => by
+    have h1 := h _ (List.mem_cons_self ..)
+    simp only [rfieldSkipped] at h1
+    unfold srOrderedN
+    simp only [h1, if_true]
+    exact srOrderedN_all_skipped sn rest db (fun r hr => h r (List.mem_cons_of_mem _ hr))
+
+/-- `is_empty()` — which the session consults to decide whether any values are sent with the statement — is true
+exactly when the struct has no unskipped field (a flattened field counts as a field, whatever it contains), and
+then serialization for a statement without bind markers indeed writes nothing, in both flavors -/
+theorem rowIsEmpty_iff (rs : List RField) :
+    (rowIsEmpty rs = true ↔ ∀ r ∈ rs, rfieldSkipped r = true) ∧
+    (rowIsEmpty rs = true → serRowByNameN rs [] = .ok [] ∧ ∀ sn, serRowOrderedN sn rs [] = .ok []) := by
+  have hiff : rowIsEmpty rs = true ↔ ∀ r ∈ rs, rfieldSkipped r = true := by
+    unfold rowIsEmpty
+    rw [beq_iff_eq]
+    exact countActive_zero_iff rs
+  refine ⟨hiff, fun h => ?_⟩
+  have hall := hiff.mp h
+  have hc : countActive rs = 0 := (countActive_zero_iff rs).mpr hall
+  constructor
+  · unfold serRowByNameN
+    rw [mkPFields_all_skipped rs hall, hc]
+    simp [serRowByNameLoopN, checkMissingN]
+  · intro sn
+    unfold serRowOrderedN
+    rw [srOrderedN_all_skipped sn rs [] hall]
+
+
 
 /-! ### non-vacuity: concrete structs, orders and values -/
 
